@@ -376,6 +376,12 @@ type rec struct {
 // linearizable searches a real-time-respecting total order whose sequential
 // model run reproduces every result and the final state.
 func linearizable(cap int, recs []rec, final []int) (bool, []int) {
+	return linearizableF(cap, recs, final, true)
+}
+
+// linearizableF: with finalKnown == false the final state is not part of the oracle (behavioural mode: the caller has
+// appended sequential probe operations to recs instead).
+func linearizableF(cap int, recs []rec, final []int, finalKnown bool) (bool, []int) {
 	n := len(recs)
 	used := make([]bool, n)
 	order := make([]int, 0, n)
@@ -383,7 +389,7 @@ func linearizable(cap int, recs []rec, final []int) (bool, []int) {
 	var dfs func(m *model) bool
 	dfs = func(m *model) bool {
 		if len(order) == n {
-			return m.key() == finalKey
+			return !finalKnown || m.key() == finalKey
 		}
 		for i := 0; i < n; i++ {
 			if used[i] {
@@ -440,7 +446,7 @@ func linearizable(cap int, recs []rec, final []int) (bool, []int) {
 			break
 		}
 	}
-	if good && m.key() == finalKey {
+	if good && (!finalKnown || m.key() == finalKey) {
 		return true, idx
 	}
 	if dfs(&model{cap: cap}) {
@@ -630,7 +636,25 @@ func exploreLRU(c *mc.Ctx, w *mc.W, cp int, prog [][]op, outcomes map[string]boo
 				return true
 			}
 		}
-		if ok, _ := linearizable(cp, recs, ord); !ok {
+		if atomic.LoadInt32(&uninspectable) == 1 {
+			// behavioural mode (the representation cannot be read): the final state is observed by probing - one
+			// sequential Get per key of the universe after quiescence, appended to the history
+			recs2 := append([]rec{}, recs...)
+			t := 0
+			for _, r := range recs {
+				if r.ret > t {
+					t = r.ret
+				}
+			}
+			for k := 0; k < 3; k++ {
+				t += 2
+				recs2 = append(recs2, rec{th: 99, idx: k, o: op{false, k}, res: apply(real, op{false, k}), inv: t, ret: t + 1})
+			}
+			if ok, _ := linearizableF(cp, recs2, nil, false); !ok {
+				fail("lruCache/not-linearizable", "no sequential LRU execution explains the call/return history followed by a probe Get of every key")
+				return true
+			}
+		} else if ok, _ := linearizable(cp, recs, ord); !ok {
 			fail("lruCache/not-linearizable", "no sequential LRU execution explains the call/return history and final state")
 			return true
 		}
